@@ -52,6 +52,10 @@ BASES = {
     "ConvexPolygon_xy_minus_z": lambda: S.ConvexPolygon(_Q2.copy(), normal=[0.0, 0.0, -1.0]),
     "ConvexSpheropolygon_cw": lambda: S.ConvexSpheropolygon(_Q2[::-1].copy(), 0.3),
     "Polygon_xy_cw": lambda: S.Polygon(_N2[::-1].copy()),
+    # the rounding radius handed over as a 0-d array (np.asarray(x), np.squeeze of a one-element array): a mutable object
+    # that an augmented assignment inside a query would change in place
+    "ConvexSpheropolyhedron_r0d": lambda: S.ConvexSpheropolyhedron(_B3.copy(), np.array(0.35)),
+    "ConvexSpheropolygon_r0d": lambda: S.ConvexSpheropolygon(_Q2.copy(), np.array(0.3)),
     "Polyhedron_unflagged": lambda: S.Polyhedron(_B3.copy(), _facets(_B3)),
     "Circle": lambda: S.Circle(1.3, np.array([0.5, -0.2, 0.0])),
     "Ellipse": lambda: S.Ellipse(1.3, 0.6, np.array([0.5, -0.2, 0.0])),
@@ -122,7 +126,7 @@ def arg_queries(base):
         out["form_factor(batch)"] = (lambda: (q.copy(),), lambda s, k: call(s.compute_form_factor_amplitude, k))
         out["form_factor(single)"] = (lambda: (q[1:2].copy(),), lambda s, k: call(s.compute_form_factor_amplitude, k))
     if isinstance(shape, (S.ConvexPolygon, S.ConvexSpheropolygon, S.Circle, S.Ellipse)) and base in ("ConvexPolygon_xy", "ConvexSpheropolygon", "Circle", "Ellipse",
-                                                                                                 "ConvexPolygon_xy_minus_z", "ConvexSpheropolygon_cw"):
+                                                                                                 "ConvexPolygon_xy_minus_z", "ConvexSpheropolygon_cw", "ConvexSpheropolygon_r0d"):
         ang = np.array([0.0, 0.4, 1.3, -2.2, 7.3])
         out["distance_to_surface"] = (lambda: (ang.copy(),), lambda s, a: call(s.distance_to_surface, a))
     return out
